@@ -9,6 +9,8 @@ import (
 	"github.com/gogo/protobuf/proto"
 	pb "github.com/ipfs/boxo/ipld/unixfs/pb"
 	"github.com/ipfs/go-cid"
+	"github.com/ipfs/go-unixfsnode/data"
+	"github.com/ipfs/go-unixfsnode/hamt"
 	dagpb "github.com/ipld/go-codec-dagpb"
 	"github.com/ipld/go-ipld-prime"
 	"github.com/ipld/go-ipld-prime/datamodel"
@@ -192,6 +194,67 @@ func TestC14(t *testing.T) {
 				add("shard/"+s.name, s.expect, mustMarshal(s.m), true, ls, names, "shard parameters")
 			}
 
+			// nodes that are already reified (ADLs, not dag-pb): returned unchanged by every variant
+			{
+				pls := st.LinkSystem(true)
+				var adls []c14Input
+				for _, in := range inputs {
+					if in.Block == nil || in.Expect == "error" || in.Expect == "same" {
+						continue
+					}
+					if rn, err := reify(pls, in.Node); err == nil && rn != nil && rn != in.Node {
+						adls = append(adls, c14Input{Class: "already-reified/" + in.Class, Expect: "same", Node: rn})
+					}
+				}
+				inputs = append(inputs, adls...)
+			}
+			// shard-shaped parameters on a node of another type must not make it a shard
+			for _, t := range []pb.Data_DataType{pb.Data_Directory, pb.Data_File, pb.Data_Raw, pb.Data_Symlink, pb.Data_Metadata} {
+				tt := t
+				ls2, names := mkChildren(2, true, 1)
+				imp := mustMarshal(&pb.Data{Type: &tt, HashType: mur, Fanout: proto.Uint64(8), Data: []byte{0x03}})
+				blk := encodePB(imp, true, ls2)
+				pn, err := decodePB(blk)
+				if err != nil {
+					continue
+				}
+				impCid := st.PutBlock(1, cid.DagProtobuf, blk)
+				c.Count("nodes", 1)
+				c.Guard("hamt constructors on "+t.String(), func() {
+					if n, err := hamt.AttemptHAMTShardFromNode(bg, pn, st.LinkSystem(false)); err == nil {
+						c.Violation("C14|impostor-shard|AttemptHAMTShardFromNode", "a %s node carrying hashType/fanout was accepted as a HAMT shard (%T)", t, n)
+					}
+					if d, derr := data.DecodeUnixFSData(imp); derr == nil {
+						if n, err := hamt.NewUnixFSHAMTShard(bg, pn, d, st.LinkSystem(false)); err == nil {
+							c.Violation("C14|impostor-shard|NewUnixFSHAMTShard", "a %s node carrying hashType/fanout was accepted as a HAMT shard (%T)", t, n)
+						}
+					}
+				})
+				// ... nor when it is linked as a child of a genuine shard
+				root := mustMarshal(&pb.Data{Type: &st5, HashType: mur, Fanout: proto.Uint64(8), Data: []byte{0x01}})
+				rblk := encodePB(root, true, []pbLinkSpec{{Name: strp("0"), Tsize: u64p(1), Cid: impCid}})
+				rn, _ := decodePB(rblk)
+				c.Guard("genuine shard over impostor child", func() {
+					n, err := reify(st.LinkSystem(false), rn)
+					if err != nil {
+						return
+					}
+					it := n.MapIterator()
+					for i := 0; !it.Done() && i < 10; i++ {
+						k, _, err := it.Next()
+						if err == nil && k != nil {
+							ks, _ := k.AsString()
+							c.Violation("C14|impostor-shard|child", "iterating a shard whose child block is a %s node listed entry %q of that node as a directory entry", t, ks)
+							break
+						}
+					}
+					for _, nm := range names {
+						if v, err := n.LookupByString(nm[1:]); err == nil && v != nil {
+							c.Violation("C14|impostor-shard|child-lookup", "lookup through a %s child block resolved %q", t, nm[1:])
+						}
+					}
+				})
+			}
 			// ---- run every input through the three reification variants ----
 			ls := st.LinkSystem(true)
 			variants := []struct {
